@@ -56,7 +56,14 @@ func vfGenPools(r *vfRand, withBig bool, names []string) []metallbv1beta1.IPAddr
 		}
 		if r.Chance(1, 2) {
 			at := &metallbv1beta1.ServiceAllocation{Priority: vfPick(r, []int{0, 0, 1, 2, 3})}
-			switch r.Intn(6) {
+			switch r.Intn(8) {
+			case 6: // a namespace list AND namespace selectors: the pool serves the union
+				at.Namespaces = []string{vfPick(r, []string{"ns1", "ns2", "ns3"})}
+				at.NamespaceSelectors = []metav1.LabelSelector{{MatchLabels: map[string]string{"team": vfPick(r, []string{"a", "b", "nobody"})}}}
+			case 7: // all three kinds of restriction
+				at.Namespaces = []string{vfPick(r, []string{"ns1", "ns2"})}
+				at.NamespaceSelectors = []metav1.LabelSelector{{MatchLabels: map[string]string{"team": vfPick(r, []string{"a", "b"})}}}
+				at.ServiceSelectors = []metav1.LabelSelector{{MatchLabels: map[string]string{"tier": vfPick(r, []string{"web", "db"})}}, {MatchLabels: map[string]string{"tier": "cache"}}}
 			case 0:
 				at.Namespaces = vfSubset(r, []string{"ns1", "ns2", "ns3"}, 1, 2)
 			case 1:
